@@ -242,6 +242,6 @@ func runReject(c RejectCase, rec *h.Rec) error {
 	return nil
 }
 
-var propReject = h.NewProp("TestPropMismatchedSharesRejected", h.Budget{Quick: 800, Thorough: 10000}, genReject, runReject)
+var propReject = h.NewProp("TestPropMismatchedSharesRejected", h.Budget{Quick: 500, Thorough: 6000}, genReject, runReject)
 
 func TestPropMismatchedSharesRejected(t *testing.T) { propReject.Check(t) }
